@@ -3,6 +3,7 @@ package lmux
 import (
 	"errors"
 	"net"
+	"sync"
 	"sync/atomic"
 	"time"
 
@@ -32,6 +33,7 @@ func New(maxOnlineA int) *ListenerMux {
 // ListenerMux manages listeners and handle the connection dispatching logic.
 type ListenerMux struct {
 	shutdown   bool
+	mux        sync.Mutex
 	listeners  map[net.Listener]listenerAB
 	chClose    chan struct{}
 	onlineA    int32
@@ -96,12 +98,21 @@ func (lm *ListenerMux) Start() {
 					}
 					continue
 				}
+				// nothing is queued once Stop has begun: it closes what is
+				// still queued and nobody would pick up a later entry.
+				lm.mux.Lock()
+				if lm.shutdown {
+					lm.mux.Unlock()
+					_ = c.Close()
+					return
+				}
 				if atomic.AddInt32(&lm.onlineA, 1) <= lm.maxOnlineA {
 					listenerA.chEvent <- event{err: nil, conn: c}
 				} else {
 					atomic.AddInt32(&lm.onlineA, -1)
 					listenerB.chEvent <- event{err: nil, conn: c}
 				}
+				lm.mux.Unlock()
 			}
 		}(k, v.a, v.b)
 	}
@@ -114,13 +125,31 @@ func (lm *ListenerMux) Stop() {
 	if lm == nil {
 		return
 	}
+	lm.mux.Lock()
 	lm.shutdown = true
+	lm.mux.Unlock()
 	for l, ab := range lm.listeners {
 		_ = l.Close()
 		_ = ab.a.Close()
 		_ = ab.b.Close()
 	}
 	close(lm.chClose)
+	// connections that were accepted but not handed out yet would stay
+	// open forever.
+	for _, ab := range lm.listeners {
+		for _, cl := range []*ChanListener{ab.a, ab.b} {
+			for drained := false; !drained; {
+				select {
+				case e := <-cl.chEvent:
+					if e.conn != nil {
+						_ = e.conn.Close()
+					}
+				default:
+					drained = true
+				}
+			}
+		}
+	}
 }
 
 // DecreaseOnlineA decreases the online num of ChanListener A.
